@@ -367,10 +367,16 @@ func (ft *FakeTarget) serveConn(c *Conn) {
 			H.Add(Event{Kind: "fault", Target: addr, Req: rid, Info: d.Fault})
 			c.Write([]byte("\x00\x01garbage not http\r\n\r\n"))
 			return
-		case "close_mid_headers":
+		case "close_mid_headers", "close_after_status_line", "close_after_header_line":
 			H.Add(Event{Kind: "fault", Target: addr, Req: rid, Info: d.Fault})
 			hb := head.Bytes()
-			c.Write(hb[:len(hb)/2])
+			cut := len(hb) / 2 // in the middle of a header line
+			if d.Fault == "close_after_status_line" {
+				cut = bytes.Index(hb, []byte("\r\n")) + 2
+			} else if d.Fault == "close_after_header_line" { // complete lines, but the block is never terminated
+				cut = bytes.LastIndex(hb[:len(hb)-4], []byte("\r\n")) + 2
+			}
+			c.Write(hb[:cut])
 			return
 		case "stall_headers":
 			H.Add(Event{Kind: "fault", Target: addr, Req: rid, Info: d.Fault + ":" + d.FaultD.String()})
